@@ -225,6 +225,269 @@ def run_directed(pid, log):
     return res
 
 
+# --------------------------------------------------------------------------- C18 concurrency
+
+def interleavings(blocks, cap, r):
+    """all merges of the per-connection command lists that keep each list's order (capped)"""
+    import itertools
+    total = 1
+    import math
+    n = sum(len(b) for b in blocks)
+    total = math.factorial(n)
+    for b in blocks:
+        total //= math.factorial(len(b))
+    res = []
+    if total <= cap:
+        def rec(idx, acc):
+            if all(i == len(b) for i, b in zip(idx, blocks)):
+                res.append(list(acc))
+                return
+            for k, b in enumerate(blocks):
+                if idx[k] < len(b):
+                    idx[k] += 1
+                    acc.append(b[idx[k] - 1])
+                    rec(idx, acc)
+                    acc.pop()
+                    idx[k] -= 1
+        rec([0] * len(blocks), [])
+        return res, True
+    seen = set()
+    # whole-block orders first, then random merges
+    for perm in itertools.permutations(range(len(blocks))):
+        seq = [x for k in perm for x in blocks[k]]
+        seen.add(tuple(seq))
+    while len(seen) < cap:
+        idx = [0] * len(blocks)
+        seq = []
+        while any(i < len(b) for i, b in zip(idx, blocks)):
+            k = r.choice([k for k, b in enumerate(blocks) if idx[k] < len(b)])
+            seq.append(blocks[k][idx[k]])
+            idx[k] += 1
+        seen.add(tuple(seq))
+    return [list(x) for x in seen], False
+
+
+def gen_conc_scenarios(seed, n, kinds=None):
+    r = random.Random(seed * 101 + 3)
+    sc = []
+    for i in range(n):
+        kind = r.choice(kinds or ["nickrace", "joinrace", "limitrace", "mixed", "mixed", "mixed"])
+        cfg = ["cfg name irc.test"]
+        setup, burst = [], {}
+        if kind == "nickrace":
+            k = r.choice([2, 3])
+            pw = r.random() < 0.6
+            if pw:
+                cfg.append("cfg password srvpw")
+            for c in range(1, k + 1):
+                setup += ["connect %d 127.0.0.1" % c] + ([L(c, "PASS srvpw")] if pw else []) + [L(c, "USER u%d 0 * :r" % c)]
+            setup += ["connect 9 127.0.0.1"] + ([L(9, "PASS srvpw")] if pw else []) + [L(9, "NICK zed"), L(9, "USER uzed 0 * :r")]
+            for c in range(1, k + 1):
+                burst[c] = [L(c, "NICK " + r.choice(["same", "same", "other"]))]
+                if r.random() < 0.5:
+                    burst[c].append(L(c, "JOIN #r"))
+            burst[9] = [L(9, "NICK " + r.choice(["same", "zed2"]))] if r.random() < 0.5 else [L(9, "LUSERS")]
+        elif kind == "joinrace":
+            k = r.choice([2, 3])
+            for c in range(1, k + 1):
+                setup += reg(c, "n%d" % c)
+            for c in range(1, k + 1):
+                burst[c] = [L(c, "JOIN #new")]
+                if r.random() < 0.5:
+                    burst[c].append(L(c, "PRIVMSG #new :hi from %d" % c))
+        elif kind == "limitrace":
+            setup += reg(1, "own") + [L(1, "JOIN #l"), L(1, "MODE #l +l 2")]
+            k = r.choice([2, 3])
+            for c in range(2, k + 2):
+                setup += reg(c, "n%d" % c)
+                burst[c] = [L(c, "JOIN #l")]
+            if r.random() < 0.4:
+                burst[1] = [L(1, "MODE #l +l 3")]
+        else:
+            k = r.choice([2, 3])
+            for c in range(1, k + 1):
+                setup += reg(c, "n%d" % c)
+            setup += [L(1, "JOIN #c")] + ([L(2, "JOIN #c")] if r.random() < 0.7 else [])
+            menu = ["PRIVMSG #c :m%d", "NICK x%d", "JOIN #c", "PART #c", "TOPIC #c :t%d", "MODE #c +m", "MODE #c -m",
+                    "KICK #c n2", "AWAY :a%d", "INVITE n3 #c", "MODE #c +v n2", "PRIVMSG n1 :p%d", "QUIT", "NAMES #c",
+                    "MODE #c +l 2", "JOIN #d", "WHO #c"]
+            for c in range(1, k + 1):
+                m = r.choice([1, 2, 2, 3])
+                cmds = []
+                for j in range(m):
+                    t = r.choice(menu)
+                    cmds.append(L(c, t % (10 * c + j) if "%d" in t else t))
+                    if t == "QUIT":
+                        break
+                burst[c] = cmds
+        sc.append(("conc-%d-%d-%s" % (seed, i, kind), cfg, setup, burst))
+    return sc
+
+
+_LUSERS = {"251", "252", "253", "254", "255", "265", "266"}
+
+
+def conc_canon_lines(lines):
+    from . import canon
+    out = []
+    for l in lines:
+        l = canon.canon_line(l)
+        m = re.match(r"^:\S+ (\d\d\d) (\S+) ?(.*)$", l)
+        if m and m.group(1) in _LUSERS:
+            continue  # the welcome burst reads the counters under its own later lock
+        if m and m.group(1) in ("433", "451"):
+            # known corner (DESIGN.md C18): a nick taken between the unregistered NICK's check and its
+            # insertion is refused by `authenticate` with the new nick already recorded locally, so
+            # the CLIENT token of this connection's 433/451 replies differs from every sequential run
+            l = ":srv %s <client> %s" % (m.group(1), m.group(3))
+        out.append(l)
+    out = canon.merge_353(out)
+    return sorted(out)
+
+
+def conc_state(stlines):
+    return sorted(l for l in stlines if not l.startswith("st conn "))
+
+
+def parse_conc_impl(text):
+    res = collections.OrderedDict()
+    cur = None
+    mode = None
+    for line in text.split("\n"):
+        if line.startswith("seq "):
+            cur = {"setup": [], "final": [], "outs": {}, "events": []}
+            res[line[4:]] = cur
+        elif line == "setupstate":
+            mode = "setup"
+        elif line == "finalstate":
+            mode = "final"
+        elif line.startswith("st ") and cur is not None:
+            cur[mode].append(line)
+        elif line.startswith("burstout "):
+            _, c, l = line.split(" ", 2)
+            cur["outs"].setdefault(int(c), []).append(unesc(l))
+        elif line.startswith("ev "):
+            cur["events"].append(line)
+    return res
+
+
+def run_conc(tier, seed, log, kinds=None):
+    from . import canon
+    os.makedirs(runner.WORK, exist_ok=True)
+    r = random.Random(seed)
+    n = 24 if tier == "quick" else 400
+    scenarios = gen_conc_scenarios(seed, n, kinds)
+    violations = []
+    n_inter = 0
+    n_exh = 0
+    seen = set()
+    worker_sets = [1, 4] if tier == "quick" else [1, 2, 4, 8]
+    runs = 0
+    samples = []
+    for workers in worker_sets:
+        path = runner.WORK + "/conc-%d-w%d.ops" % (seed, workers)
+        with open(path, "w") as f:
+            for name, cfg, setup, burst in scenarios:
+                f.write("seq %s\n" % name)
+                for l in cfg:
+                    f.write(l + "\n")
+                f.write("begin\nsetup\n")
+                for o in setup:
+                    f.write(o + "\n")
+                f.write("burst\n")
+                for c in sorted(burst):
+                    for o in burst[c]:
+                        f.write(o + "\n")
+                f.write("endburst\nend\n")
+        ri = runner.sh([runner.HARNESS, "conc", path], timeout=3000, env={"VERIF_WORKERS": str(workers)})
+        if ri.returncode != 0:
+            raise runner.BuildError("conc mode failed: " + ri.stderr[-800:])
+        impl = parse_conc_impl(ri.stdout)
+        # model: every interleaving of every scenario, one orchestrated sequence each
+        mpath = runner.WORK + "/conc-model-%d.ops" % seed
+        index = []
+        with open(mpath, "w") as f:
+            for name, cfg, setup, burst in scenarios:
+                blocks = [burst[c] for c in sorted(burst)]
+                ils, exhaustive = interleavings(blocks, 1500 if tier == "quick" else 6000, r)
+                if workers == worker_sets[0]:
+                    n_inter += len(ils)
+                    n_exh += 1 if exhaustive else 0
+                for k, il in enumerate(ils):
+                    f.write("seq %s#%d\n" % (name, k))
+                    for l in cfg:
+                        f.write(l + "\n")
+                    f.write("begin\n")
+                    for o in setup + il:
+                        f.write(o + "\n")
+                    f.write("end\n")
+                    index.append((name, k, len(setup), il))
+        rm = runner.sh([runner.MODEL, "run", mpath], timeout=3000)
+        if rm.returncode != 0:
+            raise runner.BuildError("model run failed: " + rm.stderr[-800:])
+        mseqs = canon.parse_transcript(rm.stdout)
+        by_name = collections.defaultdict(list)
+        for (name, k, nsetup, il), ms in zip(index, mseqs):
+            outs = collections.defaultdict(list)
+            for op in ms.ops[nsetup + 1:]:
+                for c, ls in op.outs.items():
+                    outs[c] += ls
+            final = conc_state(ms.ops[-1].st) if ms.ops else []
+            by_name[name].append((il, {c: conc_canon_lines(v) for c, v in outs.items() if v}, final))
+        for name, cfg, setup, burst in scenarios:
+            runs += 1
+            im = impl.get(name)
+            if im is None:
+                continue
+            if any("timeout" in l for ls in im["outs"].values() for l in ls) or im["events"]:
+                sig = "conc:server-stalled"
+                if sig not in seen:
+                    seen.add(sig)
+                    violations.append((sig, {"what": "a live connection was not answered after the burst", "cfg": cfg,
+                                             "setup": runner.render_ops(setup),
+                                             "burst": {str(c): runner.render_ops(v) for c, v in burst.items()},
+                                             "impl_out": {str(c): v[-5:] for c, v in im["outs"].items()}, "workers": workers}))
+                continue
+            iouts = {c: conc_canon_lines(v) for c, v in im["outs"].items() if v}
+            ifinal = conc_state(im["final"])
+            # a connection that ends during the burst loses whatever was still queued for it
+            ending = {c for c, v in iouts.items() if any(" ERROR" in l for l in v)}
+            ending |= {c for c, cmds in burst.items() if any(unesc(o.split(" ", 2)[2]).upper().startswith("QUIT") for o in cmds)}
+
+            def explains(o):
+                for c in set(o) | set(iouts):
+                    a, b = iouts.get(c, []), o.get(c, [])
+                    if c in ending:
+                        cb = collections.Counter(b)
+                        ca = collections.Counter(a)
+                        if any(ca[k] > cb[k] for k in ca):
+                            return False
+                    elif a != b:
+                        return False
+                return True
+            ok = any(explains(o) and fs == ifinal for (_, o, fs) in by_name[name])
+            if not ok:
+                state_ok = any(fs == ifinal for (_, o, fs) in by_name[name])
+                sig = "conc:not-linearizable"
+                if sig not in seen:
+                    seen.add(sig)
+                    violations.append((sig, {
+                        "what": "no order of the concurrently issued commands (respecting each connection's own order) explains the observed replies and final state",
+                        "cfg": cfg, "setup": runner.render_ops(setup),
+                        "burst": {str(c): runner.render_ops(v) for c, v in burst.items()},
+                        "impl_out": {str(c): v for c, v in iouts.items()}, "impl_final_state": ifinal,
+                        "some_model_out": {str(c): v for c, v in by_name[name][0][1].items()},
+                        "final_state_explained": state_ok, "interleavings_tried": len(by_name[name]), "workers": workers}))
+            if len(samples) < 1:
+                samples.append({"scenario": name, "setup": runner.render_ops(setup)[:8],
+                                "burst": {str(c): runner.render_ops(v) for c, v in burst.items()}})
+    cov = {"evaluations": runs, "conc_scenarios": len(scenarios), "interleavings_modelled": n_inter,
+           "scenarios_exhaustively_interleaved": n_exh, "worker_thread_settings": worker_sets,
+           "distinct_nontrivial": len({(tuple(sorted((c, tuple(v)) for c, v in b.items()))) for _, _, _, b in scenarios}),
+           "rule": "real run_server on a multi-thread runtime; a case is one burst of simultaneously issued commands; it passes if SOME interleaving of the burst (all of them enumerated when <= cap) run sequentially on the Lean model yields the observed per-connection reply multisets and final shared state"}
+    return {"coverage": cov, "samples": samples, "violations": violations}
+
+
 def run_extractor(script, sig, what):
     r = runner.sh(["python3", runner.V + "/tools/" + script], timeout=120)
     try:
@@ -243,10 +506,23 @@ def run(pid, tier, seed, log):
     if pid == "C17":
         out = run_timer(tier, seed, log)
     if pid == "C18":
+        out = run_conc(tier, seed, log)
         info, viol = run_extractor("lock_map.py", "lock-structure-changed",
                                    "the lock/await structure of a handler (or the gate/dispatch table) differs from the one the atomic sections of Irc/Conc.lean were written from")
         out["coverage"]["lock_map"] = info
         out["violations"] += viol
+    if pid == "C02":
+        # registration races: real server, simultaneous claims to one nickname
+        out = run_conc(tier, seed, log, kinds=["nickrace"])
+        out["coverage"] = {"conc_" + k: v for k, v in out["coverage"].items() if k not in ("rule",)}
+        info, viol = run_extractor("lock_map.py", "lock-structure-changed",
+                                   "the lock/await structure of a registration handler differs from the one the model assumes (check and insert of a nickname in one write-lock section)")
+        reg_handlers = ("authenticate", "process_nick", "process_user", "process_pass", "process_cap", "remove_user")
+        if viol:
+            d = [x for x in info.get("differences", []) if any(h in x for h in reg_handlers)]
+            if d:
+                viol[0][1]["differences"] = d
+                out["violations"] += viol
     if pid == "C05":
         info, viol = run_extractor("panic_sites.py", "new-panic-site",
                                    "a handler contains an unwrap/expect/panic!/checked-subtraction/slice site that the model does not represent")
